@@ -522,6 +522,7 @@ class Parser(IdlVisitor):
                         type_ref.type_def = self.resolver.resolve(type_ref)
                     except Resolver.TypeResolvingException as e:
                         self.errors.append(e)
+                        continue
                     if type_ref.parameters and not type_ref.type_def.params:
                         self.errors.append(Parser.ParsingException(
                             f"Type '{type_ref.name}' does not accept generic parameters",
@@ -566,7 +567,7 @@ class Parser(IdlVisitor):
                             ))
                         if method.throwing is not None:
                             for type_ref in method.throwing:
-                                if type_ref.type_def.primitive != BaseExternalType.Primitive.error:
+                                if type_ref.type_def and type_ref.type_def.primitive != BaseExternalType.Primitive.error:
                                     self.errors.append(Parser.ParsingException(
                                         "Only errors can be thrown",
                                         position=type_ref.position
@@ -591,7 +592,7 @@ class Parser(IdlVisitor):
                             ))
                     if decl.throwing is not None:
                         for type_ref in decl.throwing:
-                            if type_ref.type_def.primitive != BaseExternalType.Primitive.error:
+                            if type_ref.type_def and type_ref.type_def.primitive != BaseExternalType.Primitive.error:
                                 self.errors.append(Parser.ParsingException(
                                     "Only errors can be thrown",
                                     position=type_ref.position
